@@ -180,9 +180,15 @@ def block_keys(function):
 def render_function(function, keys):
     out = [f"fentry {keys[function.entry]}"]
     K = lambda b: keys.get(b, b.idx + SUB_OFF)
+    from tealer.detectors.groupsize import MissingGroupSize
     for b in function.blocks:
+        try:
+            ab = 1 if MissingGroupSize._accessed_using_absolute_index(b) else 0
+        except Exception as e:  # noqa
+            ab = 'E'
         out.append(f"fblock {keys[b]} idx={b.idx} sub={penc(b.subroutine.name)} n={len(b.instructions)} "
-                   f"next={nl(K(x) for x in b.next)} prev={nl(K(x) for x in b.prev)}")
+                   f"next={nl(K(x) for x in b.next)} prev={nl(K(x) for x in b.prev)} leaf={1 if leaf_block_global(b) else 0} abs={ab} exit={'callsub:' + penc(b.exit_instr.label) if b.is_callsub_block else ('retsub' if b.is_retsub_block else '-')}")
+    construct_stack_ast.cache_clear()
     for s in [function.main] + list(function.subroutines.values()):
         callers = function.caller_blocks(s) if s is not function.main else []
         rps = function.return_point_blocks(s) if s is not function.main else []
